@@ -21,3 +21,6 @@ pub mod endpoint;
 pub mod path;
 pub mod recovery;
 pub mod stream;
+#[cfg(aws_s2n_quic_verif)]
+#[doc(hidden)]
+pub mod verif_hooks;
